@@ -10,7 +10,7 @@ def _base(prop):
     r=subprocess.run([exe,'-inner','-property',prop,'-repo','/repo'],capture_output=True,text=True)
     line=[l for l in r.stdout.splitlines() if l.startswith('INNER-SUMMARY ')]
     if not line: return set()
-    return set(f['Key'] for f in (json.loads(line[0][len('INNER-SUMMARY '):])['failed'] or []))
+    return set((f['Key'],f.get('Why','')) for f in (json.loads(line[0][len('INNER-SUMMARY '):])['failed'] or []))
 BASE={}
 def base(prop):
     if prop not in BASE: BASE[prop]=_base(prop)
@@ -31,7 +31,7 @@ def run(seed):
             if not line:
                 res['detected_by'][prop]=['NO-VERDICT: '+(r.stderr.strip().splitlines() or ['?'])[0][:100]]; continue
             s=json.loads(line[0][len('INNER-SUMMARY '):])
-            keys=sorted(set(f['Key'].split('/')[0] for f in (s['failed'] or []) if f['Key'] not in base(prop)))
+            keys=sorted(set(f['Key'].split('/')[0] for f in (s['failed'] or []) if (f['Key'],f.get('Why','')) not in base(prop)))
             if keys: res['detected_by'][prop]=keys
         own_hits=[k for k in res['detected_by'].get(own,[]) if not k.startswith('NO-VERDICT')]
         res['own_check']='detected' if own_hits else ('no-verdict' if own in res['detected_by'] else 'MISSED')
